@@ -60,8 +60,6 @@ def exact_cases(tier, seed):
                 tol = r.choice([F(0), TOL10])
                 abstol = r.choice([kc.ABSTOL_MIN, kc.ABSTOL_MIN, F(0) if solver in kc.SQRT_FREE else kc.ABSTOL_MIN])
                 prm = dict(base, maxiter=k, tol=tol, abstol=abstol)
-                # check_after with an empty loop (maxiter = 0 or eps = 0) is a known finding: dedicated probes only
-                if prm["ca"] and (k == 0 or (tol == 0 and abstol == 0)): prm["ca"] = 0
                 out.append(kc.solve_line("e%d" % len(out), solver, side, S, **prm))
     # dedicated exits: abstol dominating, ns_search with a tiny right-hand side, exact initial guess
     for solver in kc.SOLVERS:
@@ -193,7 +191,4 @@ def classify(fail):
         impl = (fail.get("impl") or "").split(" ")
         if orc.startswith("FAIL trivial-exit-on-nonzero-rhs"):
             sig = dict(site="trivial-solution exit", kind="tiny-nonzero-rhs")
-        elif solver == "bicgstab" and tk[9] == "1" and impl[:1] == ["0"] and orc.startswith("FAIL reported"):
-            # check_after = 1 and zero iterations made: the placeholder 2*eps was returned
-            sig = dict(site="bicgstab check_after", kind="placeholder-returned")
     return sig
